@@ -3,6 +3,7 @@ package harness
 import (
 	"bytes"
 	"io"
+	"strings"
 
 	"diagonal.works/b6"
 	"diagonal.works/b6/ingest"
@@ -165,7 +166,7 @@ func runC18(rc *RC) {
 			rc.Fired("short-read")
 		}
 		if aerr != nil {
-			rc.Fail(name+"/import-failed", "applying the exported file to a fresh world over the same base failed: %v\nfile:\n%s", aerr, clipS(string(data), 2500))
+			rc.Fail(name+"/import-failed:"+c18ImportErrorKind(aerr.Error()), "applying the exported file to a fresh world over the same base failed: %v\nfile:\n%s", aerr, clipS(string(data), 2500))
 			return
 		}
 		// Tokens() is excluded: it reports what the search index knows,
@@ -189,4 +190,24 @@ func c18DiffClass(key string) string {
 		return key
 	}
 	return section(key)
+}
+
+// c18ImportErrorKind classifies why an exported file could not be applied,
+// so that different causes are different violation classes.
+func c18ImportErrorKind(msg string) string {
+	switch {
+	case strings.Contains(msg, "not closed"):
+		return "ring-not-closed"
+	case strings.Contains(msg, "expected 3 or more"):
+		return "ring-too-short"
+	case strings.Contains(msg, "non-existant path"):
+		return "area-over-missing-path"
+	case strings.Contains(msg, "missing point"):
+		return "path-over-missing-point"
+	case strings.Contains(msg, "expected 2 or more"):
+		return "path-too-short"
+	case strings.Contains(msg, "clockwise"), strings.Contains(msg, "invalid loop"):
+		return "invalid-ring"
+	}
+	return "other"
 }
